@@ -3,3 +3,4 @@ import GqlProofs.Props.C03
 import GqlProofs.Props.C04
 import GqlProofs.Props.C12
 import GqlProofs.Props.C13
+import GqlProofs.Props.C16
